@@ -955,6 +955,61 @@ static void mode_cast(void) {
       }
     }
   }
+
+  /* ---- distinct type OBJECTS that share a name: run-time types called like built-in ones, two live run-time types of one
+          name and different sizes.  cast succeeds for the object's own type object only, whatever the names say ---------- */
+  {
+    enum { NS = 8 };
+    static var sob[NS][4 + 8];
+    var ST[NS]; const char* SN[NS]; var SO[NS];
+    ST[0] = Int; SN[0] = "Int"; ST[1] = String; SN[1] = "String"; ST[2] = Array; SN[2] = "Array";
+    ST[3] = new_type_raw("Int", 8, NULL, 0, 0); SN[3] = "rt:Int";
+    ST[4] = new_type_raw("String", 8, NULL, 0, 0); SN[4] = "rt:String";
+    ST[5] = new_type_raw("Array", 48, NULL, 0, 0); SN[5] = "rt:Array";
+    ST[6] = new_type_raw("RtSame", 8, NULL, 0, 0); SN[6] = "rt:RtSame/8";
+    ST[7] = new_type_raw("RtSame", 16, NULL, 0, 0); SN[7] = "rt:RtSame/16";
+    for (int i = 0; i < NS; i++) SO[i] = header_init(sob[i], ST[i], AllocStack);
+    SO[0] = new_raw(Int, $I(5)); SO[1] = new_raw(String, $S("ab"));        /* real objects where the type has methods */
+    for (int i = 0; i < NS; i++) for (int j = 0; j < NS; j++) {
+      vf_set_cur("cast same-name obj=%s to=%s", SN[i], SN[j]);
+      if (vf.replay && strcmp(vf.replay, vf_cur) != 0) continue;
+      vf_watchdog(60);
+      int samename = strcmp(c_str(ST[i]), c_str(ST[j])) == 0;
+      volatile var r = NULL;
+      var e = VF_CATCH(r = cast(SO[i], ST[j]));
+      vf.executions++; vf.evaluations++; vf.transitions++;
+      char l[160];
+      const char* feat = i == j ? "own-type" : samename ? "other-type-object-of-the-same-name" : "other-type";
+      if (i == j) { if (e || r != SO[i]) { snprintf(l, sizeof l, "cast/object/%s/%s", feat, e ? "raised" : "returns-other"); vf_violation(l, NULL, "cast to the object's own type gave %s", e ? vf_exc_name(e) : "another pointer"); } }
+      else {
+        vf.nontrivial++;
+        if (!e) { snprintf(l, sizeof l, "cast/object/%s/no-exception", feat); vf_violation(l, NULL, "cast(object of %s, %s) returned %s; they are different type objects: ValueError expected", SN[i], SN[j], r == SO[i] ? "the object" : "something"); }
+        else if (e != ValueError) { snprintf(l, sizeof l, "cast/object/%s/raised-%s", feat, vf_exc_name(e)); vf_violation(l, NULL, "cast raised %s, ValueError expected", vf_exc_name(e)); }
+      }
+      if (vf_want_sample()) vf_sample("%s", vf_cur);
+    }
+    /* the container casts: a Table / Tree of Int keys and values offered an object of the run-time type called "Int" */
+    static const char* OPN[] = { "set-key", "set-value", "get", "mem", "rem" };
+    for (int tr = 0; tr < 2; tr++) for (int op = 0; op < 5; op++) {
+      vf_set_cur("cast same-name container=%s op=%s", tr ? "Tree" : "Table", OPN[op]);
+      if (vf.replay && strcmp(vf.replay, vf_cur) != 0) continue;
+      var c = tr ? (var)new_raw(Tree, Int, Int, $I(0), $I(10), $I(1), $I(11)) : (var)new_raw(Table, Int, Int, $I(0), $I(10), $I(1), $I(11));
+      var fo = SO[3];
+      var e;
+      switch (op) {
+      case 0: e = VF_CATCH(set(c, fo, $I(1))); break;
+      case 1: e = VF_CATCH(set(c, $I(0), fo)); break;
+      case 2: e = VF_CATCH(get(c, fo)); break;
+      case 3: e = VF_CATCH(mem(c, fo)); break;
+      default: e = VF_CATCH(rem(c, fo)); break;
+      }
+      vf.executions++; vf.evaluations++; vf.transitions++; vf.nontrivial++;
+      char l[160];
+      if (e != ValueError && e != TypeError) { snprintf(l, sizeof l, "cast/container/%s/%s/other-type-object-of-the-same-name/%s", tr ? "Tree" : "Table", OPN[op], e ? "wrong-exception" : "no-exception"); vf_violation(l, NULL, "%s with an object of a run-time type that is only NAMED Int gave %s; ValueError expected", OPN[op], vf_exc_name(e)); }
+      if (len(c) != 2 || c_int(get(c, $I(0))) != 10 || c_int(get(c, $I(1))) != 11) { snprintf(l, sizeof l, "cast/container/%s/%s/other-type-object-of-the-same-name/container-changed", tr ? "Tree" : "Table", OPN[op]); vf_violation(l, NULL, "the container changed"); }
+      var e3 = VF_CATCH(del_raw(c)); (void)e3;
+    }
+  }
   /* a type whose only job is to answer type_of: the header must still say what header_init wrote */
   for (int i = 0; i < NTY; i++) {
     vf_set_cur("cast obj=%s as=object to=%s", TYS[i].name, TYS[i].name);
@@ -1661,6 +1716,51 @@ static void mode_typecmp(void) {
     if (e1 != (c == 0) || ne != (c != 0) || l1 != (c < 0) || g1 != (c > 0) || le1 != (c <= 0) || ge1 != (c >= 0)) { snprintf(l, sizeof l, "type/cmp/%s/predicates-disagree-with-cmp", feat); vf_violation(l, NULL, "cmp=%d eq=%d neq=%d lt=%d gt=%d le=%d ge=%d", (int)c, e1, ne, l1, g1, le1, ge1); }
     if (e1 && ha != hb) { snprintf(l, sizeof l, "type/hash/%s/equal-types-hash-differently", feat); vf_violation(l, NULL, "eq(a,b) but the hashes differ"); }
     if (vf_want_sample()) vf_sample("%s", vf_cur);
+  }
+  /* the hash of a type is the hash of its name (what hash of a String of that text gives): every type object */
+  for (int a = 0; a < n; a++) {
+    vf_set_cur("typecmp a=%s b=%s", TN[a], TN[a]);
+    if (vf.replay && strcmp(vf.replay, vf_cur) != 0) continue;
+    vf.evaluations++;
+    if (hash(TO[a]) != hash_data(TN[a], strlen(TN[a]))) vf_violation("type/hash/differs-from-hash-of-name", NULL, "hash(type) is not the hash of its name");
+  }
+  /* a run-time type borrows its name from the caller (Type_New keeps the pointer): names that live in ONE reused buffer,
+     and in String objects whose block malloc hands out again.  T1 named X is hashed and deleted, the storage is rewritten
+     to Y, T2 is created there and hashed FIRST (no other type hashed in between) */
+  {
+    static const char* NP[][2] = { { "Aaa", "Bbb" }, { "Bbb", "Aaa" }, { "Aaa", "Bbbbbbbb" }, { "Longer_name_1", "Zz" }, { "Int", "Inu" }, { "K10", "K11" } };
+    uint64_t nre = 0, same_ptr = 0;
+    for (size_t pi = 0; pi < sizeof NP / sizeof NP[0]; pi++) for (int how = 0; how < 3; how++) for (int partner = 0; partner < 2; partner++) {
+      vf_set_cur("typecmp reuse first=%s second=%s storage=%d partner=%d", NP[pi][0], NP[pi][1], how, partner);
+      if (vf.replay && strcmp(vf.replay, vf_cur) != 0) continue;
+      vf_watchdog(60);
+      static char buf[64];
+      var T3 = partner == 0 ? new_type_raw(NP[pi][1], 8, NULL, 0, 0) : NULL;      /* a second type of the new name, made before ... */
+      var s1 = NULL, s2 = NULL; var T1, T2; const char* p1, * p2;
+      if (how < 2) { strcpy(buf, NP[pi][0]); T1 = new_type_raw(buf, 8, NULL, 0, 0); p1 = buf; }
+      else { s1 = new_raw(String, $S((char*)NP[pi][0])); p1 = c_str(s1); T1 = new_raw(Type, s1, $I(8)); }
+      uint64_t h1 = hash(T1);
+      if (how == 1) { strcpy(buf, NP[pi][1]); }                                  /* renamed while alive: the caller owns the text */
+      else {
+        del_raw(T1);
+        if (how == 0) strcpy(buf, NP[pi][1]); else del_raw(s1);
+      }
+      if (how == 2) { s2 = new_raw(String, $S((char*)NP[pi][1])); p2 = c_str(s2); T2 = new_raw(Type, s2, $I(8)); }
+      else if (how == 1) { T2 = T1; p2 = buf; }
+      else { T2 = new_type_raw(buf, 8, NULL, 0, 0); p2 = buf; }
+      uint64_t h2 = hash(T2);                                                     /* FIRST hash after the storage changed */
+      if (!T3) T3 = new_type_raw(NP[pi][1], 8, NULL, 0, 0);                     /* ... or after */
+      nre++; if (p1 == p2) same_ptr++;
+      vf.executions++; vf.evaluations++; vf.transitions++; if (p1 == p2) vf.nontrivial++;
+      char l[160]; const char* st = how == 0 ? "buffer-rewritten-after-delete" : how == 1 ? "buffer-rewritten-while-alive" : "string-block-recycled";
+      if (h1 != hash_data(NP[pi][0], strlen(NP[pi][0]))) { snprintf(l, sizeof l, "type/hash/%s/first-differs-from-hash-of-name", st); vf_violation(l, NULL, "hash of the first type is not the hash of '%s'", NP[pi][0]); }
+      if (h2 != hash_data(NP[pi][1], strlen(NP[pi][1]))) { snprintf(l, sizeof l, "type/hash/%s/differs-from-hash-of-name", st); vf_violation(l, NULL, "hash of the type now named '%s' is not the hash of that name%s", NP[pi][1], h2 == h1 ? " (it is the hash of the previous name)" : ""); }
+      if (!eq(T2, T3) || hash(T2) != hash(T3) || h2 != hash(T3)) { snprintf(l, sizeof l, "type/hash/%s/equal-types-hash-differently", st); vf_violation(l, NULL, "two types named '%s': eq=%d, hashes %s", NP[pi][1], (int)eq(T2, T3), h2 == hash(T3) ? "equal" : "differ"); }
+      del_raw(T2); del_raw(T3); if (s2) del_raw(s2); if (how == 1 && s1) del_raw(s1);
+      if (vf_want_sample()) vf_sample("%s", vf_cur);
+    }
+    vf_extra("name_storage_reuse_cases", "%" PRIu64, nre);
+    vf_extra("name_storage_same_pointer", "%" PRIu64, same_ptr);
   }
   /* transitivity over all triples */
   static signed char M[160][160];
